@@ -95,6 +95,7 @@ func c10Expect(entry string, frame []byte) (int, int) {
 func runC10(w *vx.W) {
 	envProbeFamily(w, "C10")
 	c10MixChains(w)
+	c10LongChains(w)
 	c10ReaderKindsFamily(w)
 	c10FileIdShapes(w)
 	thorough := !w.Quick()
@@ -440,6 +441,59 @@ func c10MixChainCheck(members [][]byte) string {
 		return "Decode of the chain: " + d
 	}
 	return ""
+}
+
+// c10LongChains: chains of hundreds and thousands of small files (a cap, a counter or a table indexed by the member
+// number shows only there): DecodeChained must return one File per member, each equal to the member decoded alone, and
+// consume the whole input; Decode of the chain consumes exactly the first member.
+func c10LongChains(w *vx.W) {
+	ns := []int{255, 256, 257, 4096, 4097, 5000}
+	if !w.Quick() {
+		ns = append(ns, 1023, 1024, 1025, 65535, 65536, 65537)
+	}
+	members := [][]byte{sMin12.B, sAct3.B, sSet.B, sMin14.B}
+	var alone []string
+	for _, m := range members {
+		alone = append(alone, dumpFile(safeDecode(bytes.NewReader(m)).File))
+	}
+	for ni, n := range ns {
+		for v := 0; v < 2; v++ {
+			if !w.Mine(int64(ni*2 + v)) {
+				continue
+			}
+			var parts [][]byte
+			var idx []int
+			for i := 0; i < n; i++ {
+				k := 0
+				if v == 1 {
+					k = (i*7 + i/5) % len(members)
+				}
+				parts = append(parts, members[k])
+				idx = append(idx, k)
+			}
+			chain := fitmodel.Concat(parts...)
+			r := &countingReader{b: chain}
+			res := safeDecodeChained(r)
+			w.Eval(int64(n))
+			w.Fam("long-chains", 1)
+			rep := c10KindReplay{ReaderKind: fmt.Sprintf("long-chain n=%d variant=%d", n, v), Entry: "DecodeChained", Frame: len(chain)}
+			switch {
+			case res.Panic != "" || res.Err != nil:
+				w.Violation("long-chain", fmt.Sprintf("DecodeChained on a chain of %d valid files fails: %v %s", n, res.Err, res.Panic), rep)
+			case len(res.Files) != n:
+				w.Violation("long-chain", fmt.Sprintf("DecodeChained on a chain of %d valid files returns %d files (nil error)", n, len(res.Files)), rep)
+			case r.i != len(chain):
+				w.Violation("long-chain", fmt.Sprintf("DecodeChained on a chain of %d valid files consumed %d of %d bytes", n, r.i, len(chain)), rep)
+			default:
+				for i, f := range res.Files {
+					if d := dumpFile(f); d != alone[idx[i]] {
+						w.Violation("long-chain", fmt.Sprintf("chain of %d files: member %d differs from the same file decoded alone: %s", n, i, diffAt(d, alone[idx[i]])), rep)
+						break
+					}
+				}
+			}
+		}
+	}
 }
 
 func c10MixChains(w *vx.W) {
